@@ -1426,6 +1426,11 @@ func (ex *Exec) contractWriteKeys(ws *writeSet, c *Contract, fi *FuncInfo, calle
 // switched off altogether (neither assumed nor proved, their ghost code not run), so that the
 // obligations of that property are proved in the context of its own layer.
 func (ex *Exec) propActive(props []string) bool {
+	// only for packages whose contract file opts in (`//@ layers`): elsewhere labels merely attribute
+	// obligations to properties and unlabelled clauses may depend on labelled ones
+	if ex.top == nil || ex.top.Pkg == nil || ex.top.Pkg.Spec == nil || !ex.top.Pkg.Spec.StrictLayers {
+		return true
+	}
 	return len(props) == 0 || ex.activeProp == "" || hasProp(props, ex.activeProp)
 }
 
